@@ -34,6 +34,9 @@ CHECKS = {
  "C08": ("model_checking", BFS + "; fix-point over (owned, head-room, size, capacity, attached) of two Buffers",
          "every reachable combination of ownership, head-room, size and capacity (sizes up to 6/9) with every operation incl. attach mixed with owning operations; terminator and bounds decided on every transition (ASan)",
          "byte values are data only (canonical-state argument); self arguments excluded", "DESIGN.md §4 C08"),
+ "C09": ("model_checking", "explorer A (handle-history BFS with reference-count invariants) + explorer B (preemption-bounded schedule DFS of threads owning distinct handles to one payload, guard-page allocator)",
+         "sequential: every handle history (copy/assign/swap/null/destroy) over RefCount::Ptr and Xml::Variant to a fix-point / depth bound and the String/Variant histories with count == sharers; concurrent: every schedule with <= 2 (3) preemptions at volatile/atomic operations and every schedule with <= 1 preemption with all plain accesses as scheduling points, for 9 three-thread scenarios",
+         "sequential consistency (no weak-memory effects); bounded numbers of handles and threads", "DESIGN.md §4 C09"),
  "C11": ("model_checking", "stateless preemption- and deviation-bounded DFS over thread schedules of the real primitives under a serialising scheduler (TSan-ABI callbacks + renamed pthread/sem/clock calls as scheduling points)",
          "every schedule with <= 2 (3) preemptions and <= 1 (2) environment deviations (spurious wake-up, early timeout) of 2-4 thread scenarios per primitive, plus the deadline arithmetic of every timed wait for 18 start/timeout combinations; deadlock/livelock verdicts from the scheduler",
          "the scheduler's model of POSIX primitives is trusted; sequential consistency; plain accesses are not scheduling points", "DESIGN.md §3.3, §4 C11"),
